@@ -109,7 +109,15 @@ def composite_codec_get_coded_const_prefix(codec: CompositeCodec,
         else:
             break
 
-    return encode_state.coded_message
+    # only the leading bytes which are completely determined by the
+    # constant parameters are part of the prefix: constants can be
+    # located behind other parameters (explicit BYTE-POSITION) or
+    # share their first or last byte with them (BIT-POSITION)
+    n = 0
+    while n < len(encode_state.coded_message) and encode_state.used_mask[n] == 0xff:
+        n += 1
+
+    return encode_state.coded_message[:n]
 
 
 def composite_codec_encode_into_pdu(codec: CompositeCodec, physical_value: Optional[ParameterValue],
